@@ -43,6 +43,19 @@ func flattenHier3(roots []*model3d.MeshHierarchy) []*hnode3 {
 }
 
 func hier3Scene(rng *rand.Rand, quick bool) (*scene3, string) {
+	if rng.Intn(12) == 0 {
+		// a wide scene: an ordinary body and, thousands of its sizes away, a nested group a
+		// hundred-thousand to a billion times smaller (a screw hole in a landscape)
+		s := &scene3{scale: 1}
+		o := sceneOpts{maxDepth: 0, maxComps: 1, maxLevel: 1, maxSub: 2, childProb: 0, rotate: true}
+		s.place(rng, &o, xyz(0, 0, 0), 1, 0, -1)
+		far := xyz(rng.NormFloat64(), rng.NormFloat64(), rng.NormFloat64())
+		far = far.Scale((500 + 3000*rng.Float64()) / far.Norm())
+		tiny := math.Pow(10, -5-4*rng.Float64())
+		o2 := sceneOpts{maxDepth: 2, maxComps: 1 + 2 + rng.Intn(3), maxLevel: 1, maxSub: 1, childProb: 1, rotate: rng.Intn(2) == 0}
+		s.place(rng, &o2, far, tiny, 1+rng.Intn(2), -1)
+		return s, "wide"
+	}
 	switch rng.Intn(8) {
 	case 0: // deep chain
 		return buildScene3(rng, sceneOpts{maxDepth: 4 + rng.Intn(3), maxComps: 40, maxLevel: 1, maxSub: 2, childProb: 1, allowTorus: true, rotate: true}), "deep"
